@@ -750,7 +750,19 @@ def _version_loop_skips_only_blank(ctx, hfn):
     return True, '', None
 
 
-row('C05', 'decode::parse_version', 'version-search-stops-at-first-non-blank-line', _version_loop_skips_only_blank)
+def _version_loop_any_depth(ctx, hfn):
+    res = None
+    for dpt in (0, 1, 2):
+        vh = hfn if dpt == 0 else H.inlined_fn(ctx.facts, hfn, depth=dpt, keep=('try_version_from_line', 'read_line', 'log_error_cause'))
+        c2 = Ctx(ctx.facts, H.binding_inits(vh), vh) if dpt else ctx
+        r = _version_loop_skips_only_blank(c2, vh)
+        if r[0]:
+            return r
+        res = res or r
+    return res
+
+
+row('C05', 'decode::parse_version', 'version-search-stops-at-first-non-blank-line', _version_loop_any_depth)
 
 
 def _version_table(ctx, hfn):
@@ -1414,6 +1426,30 @@ def _last_or_zero(ctx, hfn):
     """total distance = the last cumulative length, 0 for an empty list (combinator or match form)"""
     if _ret(M('unwrap_or', OR(M('copied', M('last', L('lengths'))), M('cloned', M('last', L('lengths')))), K(0.0)))(ctx, hfn)[0]:
         return True, '', None
+    # slice-pattern form: `match lengths { [.., total] => *total, [] => 0.0 }` (arms in either order, or `if let`)
+    import symeval as SE
+    try:
+        ev = SE.SymEval(None, budget=2000)
+        body = hfn['body']
+        tree = ev.seq(list(body.get('stmts', [])), body.get('expr'), {},
+                      lambda env, tail: ev.value(tail, env) if tail is not None else ('v', {'k': 'unit'}),
+                      kret=lambda vt, env=None: vt)
+        if tree[0] == 'ite' and tree[1][0] == 'pat' and tree[2][0] == 'v' and tree[3][0] == 'v' and L('lengths').m(ctx, tree[1][2]):
+            pat = tree[1][1]
+            while isinstance(pat, dict) and pat.get('k') == 'pref':
+                pat = pat['p']
+            th, el = strip(tree[2][1]), strip(tree[3][1])
+            if pat.get('k') == 'pslice' and pat.get('rest') and not pat.get('before') and len(pat.get('after', [])) == 1 \
+                    and pat['after'][0].get('k') == 'bind' and isinstance(th, dict) and th.get('k') == 'local' \
+                    and th.get('name') == pat['after'][0]['name'] and ctx.const_value(el) == 0.0:
+                return True, '', None
+            if pat.get('k') == 'pslice' and not pat.get('rest') and not pat.get('before') and not pat.get('after') \
+                    and ctx.const_value(th) == 0.0:
+                # `[] => 0.0, [.., total] => *total` : the second arm is exhaustive, its binding stays a local
+                if isinstance(el, dict) and el.get('k') == 'local':
+                    return True, '', None
+    except SE.Stop:
+        pass
     last = find(ctx, hfn['body'], M('last', L('lengths')))
     lits = []
     other = []
@@ -1429,8 +1465,20 @@ def _last_or_zero(ctx, hfn):
 
 
 row('C19', CURVE + 'dist', 'last-or-zero', _last_or_zero)
-row('C19', CURVE + 'idx_of_dist', 'numeric-search',
-    _contains(M('partial_cmp', ANY(), L('d')), 'the segment is found by comparing cumulative lengths with the distance as numbers'))
+def _numeric_search(ctx, hfn):
+    """the search comparator orders a cumulative length against the distance as numbers: `len.partial_cmp(&d)` or the
+    `<` / `>` comparisons that mean the same (NaN: equal)"""
+    if find(ctx, hfn['body'], M('partial_cmp', ANY(), L('d'))):
+        return True, '', None
+    lt = find(ctx, hfn['body'], IF(BIN('Lt', ANY(), L('d')), CONTAINS(P('Ordering::Less')), ANY()))
+    gt = find(ctx, hfn['body'], IF(BIN('Gt', ANY(), L('d')), CONTAINS(P('Ordering::Greater')), ANY()))
+    if lt and gt and find(ctx, hfn['body'], M('binary_search_by', ANY(), ANY())):
+        return True, '', None
+    return False, 'the segment is not found by comparing cumulative lengths with the distance as numbers', None
+
+
+_numeric_search.positive = True
+row('C19', CURVE + 'idx_of_dist', 'numeric-search', _numeric_search)
 row('C19', CURVE + 'idx_of_dist', 'no-bit-pattern-comparison',
     _not_contains(OR(M('to_bits', ANY()), M('total_cmp', ANY(), ANY())),
                   'lengths are compared by bit pattern / total order: -0.0 and 0.0 (a progress of -0.0) no longer compare equal'))
@@ -1510,6 +1558,15 @@ def _interp_table(ctx, hfn):
             pat = c[1]
             if 'Some' in repr(pat) and M('get', PATH, I).m(ctx, c[2]):
                 return ('some', True)
+            p0 = pat
+            while isinstance(p0, dict) and p0.get('k') == 'pref':
+                p0 = p0['p']
+            if isinstance(p0, dict) and p0.get('k') == 'pslice' and PATH.m(ctx, c[2]):
+                n_el = len(p0.get('before', [])) + len(p0.get('after', []))
+                if n_el == 0 and not p0.get('rest'):
+                    return ('empty', True)                 # `[]`
+                if n_el == 1 and p0.get('rest'):
+                    return ('empty', False)                # `[first, ..]` / `[.., last]`: any non-empty path
             return None
         e = strip(c[1])
         pol = True
@@ -1524,6 +1581,11 @@ def _interp_table(ctx, hfn):
             return ('i0', not pol)
         if zero.m(ctx, e):
             return ('zero', pol)
+        # `i >= path.len()` / `i < path.len()`: whether vertex i exists
+        if BIN('Ge', I, M('len', PATH)).m(ctx, e) or BIN('Le', M('len', PATH), I).m(ctx, e):
+            return ('some', not pol)
+        if BIN('Lt', I, M('len', PATH)).m(ctx, e) or BIN('Gt', M('len', PATH), I).m(ctx, e):
+            return ('some', pol)
         return None
 
     def run(t, val):
@@ -1661,7 +1723,9 @@ row('C19', CLEN, 'fit:direction',
 row('C19', CLEN, 'fit:expected-length-recorded',
     _contains(M('push', L('cumulative_len'), L('expected_len')), 'the expected length becomes the last cumulative length'))
 row('C19', CLEN, 'fit:last-valid',
-    _let('last_valid', M('map_or', M('position', M('rev', M('iter', L('cumulative_len'))), ANY()), K(0), ANY())))
+    _let('last_valid', OR(M('map_or', M('position', M('rev', M('iter', L('cumulative_len'))), ANY()), K(0), ANY()),
+                          M('map_or', M('rposition', OR(M('iter', L('cumulative_len')), L('cumulative_len')), ANY()), K(0),
+                            CONTAINS(BIN('Add', ANY(), K(1), commutative=True))))))
 
 # ------------------------------------------------------------------------------ C20
 row('C20', None, 'const:MAX_LEN', _const(EVENT + "SliderEventsIter::<'ticks_buf>::MAX_LEN", 100000.0))
@@ -1698,8 +1762,9 @@ EVENT_FORMS = {
              'path_progress': K(0.0)},
     'LastTick': {'span_idx': FINAL_IDX, 'span_start_time': SPAN_START(FINAL_IDX),
                  'time': M('max', BIN('Add', F(SELF_, 'start_time'), BIN('Div', L('total_duration'), K(2.0))),
-                           BIN('Add', BIN('Add', SPAN_START(FINAL_IDX), F(SELF_, 'span_duration')), K(-36.0))),
-                 'path_progress': BIN('Div', BIN('Sub', L('last_tick_time'), SPAN_START(FINAL_IDX)), F(SELF_, 'span_duration'))},
+                           BIN('Add', BIN('Add', SPAN_START(FINAL_IDX), F(SELF_, 'span_duration')), K(-36.0)))},
+    # (the LastTick progress -- (time - final span start) / span duration, mirrored on an even span count -- is decided by the
+    #  symbolic rule `last-tick-mirrored-on-even-span-count`)
     'Tail': {'span_idx': FINAL_IDX, 'span_start_time': SPAN_START(FINAL_IDX),
              'time': BIN('Add', F(SELF_, 'start_time'), L('total_duration')),
              'path_progress': FROM(BIN('Rem', F(SELF_, 'span_count'), K(2)))},
@@ -1762,6 +1827,7 @@ def _last_tick_mirror(ctx, hfn):
             last_why = 'expected one LastTick state arm, found %d' % len(arms)
             continue
         found = []
+        own = {}
 
         def query(st, env, ev):
             lits = []
@@ -1786,12 +1852,18 @@ def _last_tick_mirror(ctx, hfn):
                 pp = [f for f in lits[0]['fields'] if f['n'] == 'path_progress']
                 if pp:
                     blk = holders[0] if holders else None
+                    def grab(env2):
+                        for fn_ in ('time', 'span_start_time'):
+                            ff = [f for f in lits[0]['fields'] if f['n'] == fn_]
+                            if ff:
+                                own[fn_] = ev.subst(ff[0]['e'], env2)
+                        return ev.value(pp[0]['e'], env2)
                     if blk is not None and blk is not st:
                         # the literal is built by a helper that was inlined: run the helper's statements first
-                        t = ev.seq(list(blk.get('stmts', [])), None, dict(env), lambda env2, tl: ev.value(pp[0]['e'], env2),
+                        t = ev.seq(list(blk.get('stmts', [])), None, dict(env), lambda env2, tl: grab(env2),
                                    kret=lambda vt, env2=None: ('v', {'k': 'returned'}))
                     else:
-                        t = ev.value(pp[0]['e'], env)
+                        t = grab(env)
                     found.append(t)
                     return t
             return None
@@ -1833,9 +1905,21 @@ def _last_tick_mirror(ctx, hfn):
         m0 = strip(mirrored)
         ok = isinstance(m0, dict) and m0.get('k') == 'binary' and m0.get('op') == 'Sub' and \
             c2.const_value(m0['a']) == 1.0 and canon(strip(m0['b'])) == canon(strip(plain))
-        if ok:
+        if not ok:
+            last_why = 'on an even span count the last tick progress is not `1 - progress` of the same progress'
+            continue
+        # the progress itself: (the event's own time - the final span's start) / span duration
+        p0_ = strip(plain)
+        okp = isinstance(p0_, dict) and p0_.get('k') == 'binary' and p0_.get('op') == 'Div' and \
+            F(ANY(), 'span_duration').m(c2, p0_['b']) and isinstance(strip(p0_['a']), dict) and \
+            strip(p0_['a']).get('k') == 'binary' and strip(p0_['a']).get('op') == 'Sub' and \
+            'time' in own and 'span_start_time' in own and \
+            canon(strip(strip(p0_['a'])['a'])) == canon(strip(own['time'])) and \
+            canon(strip(strip(p0_['a'])['b'])) == canon(strip(own['span_start_time']))
+        if okp:
             return True, '', None
-        last_why = 'on an even span count the last tick progress is not `1 - progress` of the same progress'
+        last_why = ('the last tick progress is not (its time - the final span\'s start time) / span duration of the '
+                    'same event')
     return False, last_why, None
 
 
